@@ -19,23 +19,20 @@ def indices(s: slice, length: int) -> tuple[int, int | None, int]:
     return start, stop, step
 
 def offset_slice_indices_lsb0(key: slice, length: int) -> slice:
-    start, stop, step = indices(key, length)
-    if step is not None and step < 0:
-        if stop is None:
-            new_start = start + 1
-            new_stop = None
-        else:
-            first_element = start
-            last_element = start + ((stop + 1 - start) // step) * step
-            new_start = length - last_element
-            new_stop = length - first_element - 1
-    else:
-        first_element = start
-        # The last element will usually be stop - 1, but needs to be adjusted if step != 1.
-        last_element = start + ((stop - 1 - start) // step) * step
-        new_start = length - last_element - 1
-        new_stop = length - first_element
-    return slice(new_start, new_stop, key.step)
+    """The slice that visits, in stored (MSB0) order, the mirror images of the positions that key visits in LSB0."""
+    start, stop, step = key.indices(length)
+    count = len(range(start, stop, step))
+    if count == 0:
+        # An empty slice stays empty. For a slice assignment it marks the insertion point: the mirror image of start.
+        if step > 0:
+            return slice(length - start, length - start, key.step)
+        return slice(0, 0, key.step)
+    first_element = start
+    last_element = start + (count - 1) * step
+    if step > 0:
+        return slice(length - last_element - 1, length - first_element, key.step)
+    new_stop = length - first_element - 2
+    return slice(length - last_element - 1, new_stop if new_stop >= 0 else None, key.step)
 
 
 class BitStore:
